@@ -239,7 +239,9 @@ impl AsyncReader {
     ///
     /// Returns `Some` with an index if a request was submitted. Otherwise, `None`.
     pub fn submit(&mut self, io_handle: &IoHandle, user_data: u64) -> Option<usize> {
-        if self.is_done_requesting() {
+        if self.is_done_requesting() || self.request_index >= self.pages.len() {
+            // either everything was requested, or the numbers of the remaining pages are not
+            // known yet: they are stored in pages whose completions are still outstanding.
             return None;
         }
 
